@@ -115,4 +115,184 @@ theorem presG_walk1_bitrep (d : Desc) (hd : isBitRep d = true) (ph : WPh) (hph :
 
 end members
 
+/-! ### the dispatch on a member outside a bit-map definition -/
+
+section dispatch
+variable {P : Prims} {V : St → List Val} (hR : Rec P V)
+include hR
+
+theorem presG_disp_elem (e : Elem) (he : e.id ≠ 31031) :
+    PresG V (CoreD V) (CorePh V .idle) (dispatch P (.elem e)) (cancelsD P (.elem e)) := by
+  intro s s' cs h _ hi
+  simp only [dispatch, cancelsD, List.append_nil] at h ⊢
+  obtain ⟨a, b, _, _⟩ := hi.1.element hR hi.2 e he h
+  refine ⟨a, ?_⟩
+  rw [b]; exact hi.2.not_indicator
+
+theorem presG_disp_op (id : Nat) (h1 : okIdleOp id = true) (h2 : isBitmapOpId id = false) :
+    PresG V (CoreD V) (CorePh V .idle) (dispatch P (.op id)) (cancelsD P (.op id)) := by
+  intro s s' cs h hok hi
+  simp only [dispatch, cancelsD] at h ⊢
+  obtain ⟨a, b⟩ := hi.1.operator hR hi.2 id h1 h2 h hok
+  exact ⟨a, b.not_indicator⟩
+
+theorem presG_disp_iter (ms : List Desc) (n : Nat)
+    (ih : PresG V (CorePh V .idle) (CorePh V .idle) (walkList P ms) (cancelsL P ms)) :
+    PresG V (CoreD V) (CorePh V .idle) (iterN n (walkList P ms)) (ghostIter (walkList P ms) (cancelsL P ms) n) :=
+  (PresG.iterN ih (CorePh.len .idle) (fun s0 => growG_walkList hR s0 ms) n).weaken CoreD.idle (fun _ _ h => h)
+
+theorem presG_disp_delayed (id : Nat) (fe : Elem) (ms : List Desc) (hfe : fe.id ≠ 31031)
+    (ih : PresG V (CorePh V .idle) (CorePh V .idle) (walkList P ms) (cancelsL P ms)) :
+    PresG V (CoreD V) (CorePh V .idle) (dispatch P (.delayedRep id (.elem fe) ms))
+      (cancelsD P (.delayedRep id (.elem fe) ms)) := by
+  intro s s' cs h hok hi
+  simp only [dispatch, cancelsD] at h ⊢
+  cases h2 : elementDescriptor P (.plain fe) fe s with
+  | error err => rw [h2] at h; cases h
+  | ok s1 =>
+    rw [h2] at h
+    simp only at h ⊢
+    obtain ⟨a, b, _, _⟩ := hi.1.element hR hi.2 fe hfe h2
+    have hd1 : CoreD V s1 cs := ⟨a, by unfold Settled; rw [b]; exact hi.2⟩
+    cases h3 : P.factorValue s1 >>= factorCount with
+    | error err => rw [h3] at h; cases h
+    | ok n =>
+      rw [h3] at h
+      simp only at h ⊢
+      exact presG_disp_iter hR ms n ih s1 s' cs h hok hd1
+
+end dispatch
+
+/-! ### the whole walk -/
+
+theorem walkList_cons_kl (P : Prims) (d : Desc) (ds : List Desc) (s : St) :
+    walkList P (d :: ds) s = Bufr.kl (walk1 P d) (walkList P ds) s := by
+  rw [walkList]; rfl
+
+theorem grows_walk1 {P : Prims} {V : St → List Val} (hR : Rec P V) (d : Desc) : Grows V (walk1 P d) :=
+  Grows.of_pres (fun s0 => growG_walk1_of hR s0 d (growG_dispatch hR s0 d))
+
+/-- a member followed by the rest of its list -/
+theorem presG_cons {P : Prims} {V : St → List Val} (hR : Rec P V) (d : Desc) (ds : List Desc) (ph ph' : WPh)
+    (h1 : PresG V (CorePh V ph) (CorePh V ph') (walk1 P d) (cancels1 P d))
+    (h2 : PresG V (CorePh V ph') (CorePh V .idle) (walkList P ds) (cancelsL P ds)) :
+    PresG V (CorePh V ph) (CorePh V .idle) (walkList P (d :: ds)) (cancelsL P (d :: ds)) :=
+  (PresG.kl h1 h2 (CorePh.len ph) (grows_walk1 hR d) (grows_walkList hR ds)).congr
+    (walkList_cons_kl P d ds) (cancelsL_cons P d ds)
+
+/-! ### `wfL`, unfolded -/
+
+theorem wfL_idle_cons (d : Desc) (ds : List Desc) (h : wfL .idle (d :: ds) = true) :
+    (∃ id, d = .op id ∧ isBitmapOpId id = true ∧ wfL .afterOp ds = true) ∨
+    ((∀ id, d = .op id → isBitmapOpId id = false) ∧ wfD d = true ∧ wfL .idle ds = true) := by
+  cases d with
+  | op id =>
+    simp only [wfL] at h
+    by_cases hid : isBitmapOpId id = true
+    · rw [if_pos hid] at h; exact Or.inl ⟨id, rfl, hid, h⟩
+    · rw [if_neg hid] at h
+      simp only [Bool.and_eq_true] at h
+      refine Or.inr ⟨?_, h.1, h.2⟩
+      intro id' e; injection e with e; subst e; simpa using hid
+  | elem e => simp only [wfL, Bool.and_eq_true] at h; exact Or.inr ⟨(fun _ e => nomatch e), h.1, h.2⟩
+  | undefElem i => simp only [wfL, Bool.and_eq_true] at h; exact Or.inr ⟨(fun _ e => nomatch e), h.1, h.2⟩
+  | undefSeq i => simp only [wfL, Bool.and_eq_true] at h; exact Or.inr ⟨(fun _ e => nomatch e), h.1, h.2⟩
+  | fixedRep i ms => simp only [wfL, Bool.and_eq_true] at h; exact Or.inr ⟨(fun _ e => nomatch e), h.1, h.2⟩
+  | delayedRep i f ms => simp only [wfL, Bool.and_eq_true] at h; exact Or.inr ⟨(fun _ e => nomatch e), h.1, h.2⟩
+  | seq i ms => simp only [wfL, Bool.and_eq_true] at h; exact Or.inr ⟨(fun _ e => nomatch e), h.1, h.2⟩
+
+theorem wfL_afterOp_cons (d : Desc) (ds : List Desc) (h : wfL .afterOp (d :: ds) = true) :
+    (d = .op 237000 ∧ wfL .idle ds = true) ∨ (d = .op 236000 ∧ wfL .after236 ds = true) ∨
+    (isBitRep d = true ∧ wfL .idle ds = true) := by
+  cases d with
+  | op id =>
+    simp only [wfL] at h
+    by_cases h7 : id = 237000
+    · subst h7; exact Or.inl ⟨rfl, by simpa using h⟩
+    · rw [if_neg h7] at h
+      by_cases h6 : id = 236000
+      · subst h6; exact Or.inr (Or.inl ⟨rfl, by simpa using h⟩)
+      · rw [if_neg h6] at h; cases h
+  | elem e => simp only [wfL, Bool.and_eq_true] at h; exact Or.inr (Or.inr h)
+  | undefElem i => simp only [wfL, Bool.and_eq_true] at h; exact Or.inr (Or.inr h)
+  | undefSeq i => simp only [wfL, Bool.and_eq_true] at h; exact Or.inr (Or.inr h)
+  | fixedRep i ms => simp only [wfL, Bool.and_eq_true] at h; exact Or.inr (Or.inr h)
+  | delayedRep i f ms => simp only [wfL, Bool.and_eq_true] at h; exact Or.inr (Or.inr h)
+  | seq i ms => simp only [wfL, Bool.and_eq_true] at h; exact Or.inr (Or.inr h)
+
+theorem wfL_after236_cons (d : Desc) (ds : List Desc) (h : wfL .after236 (d :: ds) = true) :
+    isBitRep d = true ∧ wfL .idle ds = true := by
+  simp only [wfL, Bool.and_eq_true] at h; exact h
+
+theorem wfL_nil (ph : WPh) (h : wfL ph [] = true) : ph = .idle := by
+  simp only [wfL] at h; simpa using h
+
+theorem wfD_id (d : Desc) (h : wfD d = true) : d.id ≠ 31031 := by
+  cases d with
+  | elem e => simp only [wfD] at h; simpa [Desc.id] using h
+  | op id => simp only [wfD, okIdleOp, Bool.and_eq_true, bne_iff_ne, ne_eq] at h; exact h.1.1.2
+  | fixedRep id ms => simp only [wfD, Bool.and_eq_true, bne_iff_ne, ne_eq] at h; exact h.1
+  | delayedRep id f ms => simp only [wfD, Bool.and_eq_true, bne_iff_ne, ne_eq] at h; exact h.1.1
+  | seq id ms => simp only [wfD, Bool.and_eq_true, bne_iff_ne, ne_eq] at h; exact h.1
+  | undefElem id => simp only [wfD] at h; cases h
+  | undefSeq id => simp only [wfD] at h; cases h
+
+mutual
+/-- the walk of a member list that is well-formed from the phase `ph` -/
+theorem presG_walkL {P : Prims} {V : St → List Val} (hR : Rec P V) :
+    (t : List Desc) → (ph : WPh) → wfL ph t = true →
+      PresG V (CorePh V ph) (CorePh V .idle) (walkList P t) (cancelsL P t)
+  | [], ph, h => by
+    intro s s' cs hw _ hi
+    rw [walkList] at hw
+    cases hw
+    rw [cancelsL_nil, List.append_nil]
+    have := wfL_nil ph h
+    subst this
+    exact hi
+  | d :: ds, ph, h => by
+    have hD := presG_disp hR d
+    have hL := presG_walkL hR ds
+    cases ph with
+    | idle =>
+      rcases wfL_idle_cons d ds h with ⟨id, rfl, hid, hw⟩ | ⟨_, hw1, hw2⟩
+      · exact presG_cons hR _ ds .idle .afterOp (presG_walk1_bitmapOp hR id hid) (hL .afterOp hw)
+      · exact presG_cons hR d ds .idle .idle (presG_walk1_idle hR d (wfD_id d hw1) (hD hw1)) (hL .idle hw2)
+    | afterOp =>
+      rcases wfL_afterOp_cons d ds h with ⟨rfl, hw⟩ | ⟨rfl, hw⟩ | ⟨hb, hw⟩
+      · exact presG_cons hR _ ds .afterOp .idle (presG_walk1_recall hR) (hL .idle hw)
+      · exact presG_cons hR _ ds .afterOp .after236 (presG_walk1_reuse hR) (hL .after236 hw)
+      · exact presG_cons hR d ds .afterOp .idle (presG_walk1_bitrep hR d hb .afterOp (Or.inl rfl)) (hL .idle hw)
+    | after236 =>
+      obtain ⟨hb, hw⟩ := wfL_after236_cons d ds h
+      exact presG_cons hR d ds .after236 .idle (presG_walk1_bitrep hR d hb .after236 (Or.inr rfl)) (hL .idle hw)
+
+/-- the dispatch on a member outside a bit-map definition -/
+theorem presG_disp {P : Prims} {V : St → List Val} (hR : Rec P V) :
+    (d : Desc) → wfD d = true → PresG V (CoreD V) (CorePh V .idle) (dispatch P d) (cancelsD P d)
+  | .elem e, h => by
+    simp only [wfD] at h
+    exact presG_disp_elem hR e (by simpa using h)
+  | .op id, h => by
+    simp only [wfD, Bool.and_eq_true, Bool.not_eq_true'] at h
+    exact presG_disp_op hR id h.1 h.2
+  | .fixedRep id ms, h => by
+    simp only [wfD, Bool.and_eq_true] at h
+    have ih := presG_walkL hR ms .idle h.2
+    exact (presG_disp_iter hR ms (yOf id) ih).congr (fun s => rfl) (fun s => rfl)
+  | .delayedRep id f ms, h => by
+    have ih := presG_walkL hR ms .idle
+    cases f with
+    | elem fe =>
+      simp only [wfD, Bool.and_eq_true, bne_iff_ne, ne_eq] at h
+      exact presG_disp_delayed hR id fe ms h.1.2 (ih h.2)
+    | _ => simp [wfD] at h
+  | .seq id ms, h => by
+    simp only [wfD, Bool.and_eq_true] at h
+    have ih := presG_walkL hR ms .idle h.2
+    exact (ih.weaken CoreD.idle (fun _ _ x => x)).congr (fun s => rfl) (fun s => rfl)
+  | .undefElem _, h => by simp [wfD] at h
+  | .undefSeq _, h => by simp [wfD] at h
+end
+
 end Bufr.C07
